@@ -22,6 +22,8 @@ NOTES = {
     "C21-m1": "prefix-sharing sibling directories with an excluded directory", "C23-m2": "graphs with a chain of two hidden siblings",
     "C26-m1": "unqualified cases next to class-qualified namesakes", "C26-m2": "per-case execution counts and write/re-read round trip",
     "C31-m2": "not kept: after the repair 'set permissions before recording the hash' the change no longer breaks the property (demonstration passes)",
+    "C22-m2": "trees with a directory named BUILD inside a directory without a BUILD file (this also exposed the same defect in the completion walker, fixed in 0747d69)",
+    "C25-m2": "require/provide entries added to the gc section of GraphQueries.tla (declared vs resolved dependencies)",
     "C32-m1": "scenario with optional_outs and a binary rule", "C32-m2": "fs.WriteFile crashed with a fresh destination",
 }
 
